@@ -8,7 +8,7 @@ PROPERTY = 'C07'
 LEVEL = 'exploration'
 RULE = ('maxdata M in {4096, 8192} x EVERY file size 0..3*chunk+64 (chunk = min(64 KiB, M/2)), M in {64 KiB, 256 KiB, 1 MiB} x every size within +-48 of each multiple of the '
         'chunk and of each flush threshold; device paths with non-ASCII characters, spaces and commas; a second connect() to a device announcing another maxdata followed by another push; device path lengths {1, 64, 1018 (1024 with the mode suffix, the adbd limit)}; st_mode {default, 0o100644, 0}; mtime {0, 1, 2^32-1}; sources {BytesIO, file path, directory of '
-        '0/1/3 files pushed from another / the parent / the same working directory}; callbacks {none, counting, raising, re-entrant (issues a stat on the same device while the push is running)}; the device withholding the final sync OKAY; both '
+        '0/1/3 files pushed from another / the parent / the same working directory / a working directory holding sub-directories named like the files}; callbacks {none, counting, raising, re-entrant (issues a stat on the same device while the push is running)}; the device withholding the final sync OKAY; both '
         'twins; oracle: the model filesystem holds exactly the source bytes under <device_path>[/<name>] with the mode and mtime sent (virtual now when 0), SEND argument '
         '<path>,<decimal mode>, every DATA <= 64 KiB, every WRTE payload <= M, normal return only after the sync OKAY, callback counts sum to '
         'the size, host packet log with callback == without; non-trivial = file non-empty; distinct = distinct parameter tuple')
@@ -206,7 +206,7 @@ def parts(tier):
             for z in (0, 5000):
                 sc.append({'M': 4096, 'size': z, 'twin': t, 'src': src, 'withhold': True})
         for names in ([], ['one'], ['a', 'b.txt', 'c c']):
-            for cwd in ('elsewhere', 'parent', 'inside'):
+            for cwd in ('elsewhere', 'parent', 'inside', 'decoy'):
                 for cb in (None, 'count'):
                     sc.append({'M': 4096, 'size': 3000, 'twin': t, 'src': 'dir', 'names': names, 'cwd': cwd, 'cb': cb})
     out.append(Part('modes-sources-callbacks', sc, run_push, what='st_mode x mtime x source kind x callback x withheld OKAY x directory pushes from three working directories',
